@@ -29,6 +29,7 @@ type Env struct {
 	loop     *loop
 	bound    map[string]Value
 	depth    int
+	inOld    bool
 }
 
 // SpecError is panicked for ill-formed contract expressions.
